@@ -27,7 +27,11 @@ ASSUMPTIONS = ["the roll-up column is judged only when no include/exclude filter
 EXHAUSTIVE_ALL = False
 
 NAME_RE = re.compile(r"^[A-Za-z_][A-Za-z0-9_]*$")
-IDS = ["temp", "temp-1", "temp_1", "sea.water temp", "1stream", "salinité", "a/b", "_x", "v 1", "O2 (%)", "9", "x-", "T"]
+IDS = ["temp", "temp-1", "temp_1", "sea.water temp", "1stream", "salinité", "a/b", "_x", "v 1", "O2 (%)", "9", "x-", "T",
+       "salt [psu]", "o2?", "chl*", "[ab]"]
+# stream ids are literal strings: characters that mean something to fnmatch / regular expressions select nothing else
+LOOKALIKES = [["salt [psu]", "salt p", "salt s"], ["temp*", "temp_raw", "temperature"], ["o2?", "o2x", "o2"], ["v.1", "vx1", "v11"],
+              ["a|b", "a", "b"], ["(x)", "x", "((x))"]]
 
 
 def sanitize(s):
@@ -83,6 +87,10 @@ def run(ctx) -> None:
             axis_named = it % 25 == 13
             if axis_named:
                 sids = [*sids[:2], rng.choice(["z", "lat", "lon"])]  # a QC'd stream may be named like an axis column
+                nstreams = len(sids)
+            lookalike = it % 25 == 19
+            if lookalike:
+                sids = list(rng.choice(LOOKALIKES))
                 nstreams = len(sids)
             tb = P.Table(n, streams=sids, with_z=rng.random() < 0.7, with_pos=rng.random() < 0.7,
                          secs=None if rng.random() < 0.5 else c05.gen_irregular(rng, n))
@@ -156,6 +164,10 @@ def run(ctx) -> None:
                 include = tuple(include)
             if exclude is not None and rng.random() < 0.3:
                 exclude = tuple(exclude)
+            if lookalike:
+                fkind = rng.choice(["include", "exclude"])
+                include, exclude = ([sids[0]], None) if fkind == "include" else (None, [sids[0]])
+                ctx.count("c19.lookalike_id_saves")
             if fkind == "empty-include":
                 include = []
             if fkind == "empty-exclude":
